@@ -270,6 +270,12 @@ class Ctx:
             print("KNOWN-FINDING: property=%s %s [%s]" % (self.prop, k.get("what", ""), k.get("key")))
         nobl = len(self.obligations)
         ndis = sum(1 for o in self.obligations if o[1])
+        if ndis < nobl and not self.violations:
+            # an obligation that no longer checks means the property is no longer shown, even when the
+            # property module did not itself produce a failing input
+            bad = [o[0] for o in self.obligations if not o[1]]
+            self.violations.append(dict(key="obligation:" + ";".join(bad)[:200], what="proof obligation / correspondence no longer checks",
+                                        replay=dict(broken_obligations=bad, details=[o[2][:600] for o in self.obligations if not o[1]]), found=False))
         lines = []
         for i, v in enumerate(self.violations):
             rp = os.path.join(ROOT, "replays", "%s_%s_%d.json" % (self.prop, self.tier, i))
